@@ -122,3 +122,37 @@ def network_arg_sets(tier):
                 p._edge_color_map = {} if colouring == "all-red" else {(combo[0][0], combo[0][2], combo[0][3]): "green"}
                 out.append({"self": p, "edges": edges})
     return out
+
+
+# =================================================================================================
+# ConnectionPlanner._find_bidirectional_pairs: (s, t) is in the result exactly when both s -> t and t -> s are edges — a
+# SELF-LOOP s -> s (the feedback edge of a folded memory cell) is its own reverse and is included, so that it is routed
+# directly and never handed to the spanning-tree fan-out (which cannot emit a wire from an entity to itself).
+# Evaluated on the real method over all edge sets of up to 3 edges over 3 entities (self-loops included): bounded.
+# =================================================================================================
+BQ = "dsl_compiler/src/layout/connection_planner.py::ConnectionPlanner._find_bidirectional_pairs"
+
+
+def _bidi_post(a, res):
+    es = {(e.source_entity_id, e.sink_entity_id) for e in a.edges if e.source_entity_id is not None}
+    want = {(s, t) for (s, t) in es if (t, s) in es}
+    return set(res) == want
+
+
+bidi = Contract(qualname=BQ, params={"self": ty.TOpaque("planner"), "edges": ty.TOpaque("edges")},
+                ensures=[("result = the edges whose reverse is an edge too (self-loops included)", _bidi_post)],
+                verify=False, properties=("C04", "C12"), note="evaluated on the real method over an enumerated box (bounded stand-in)")
+CONTRACTS.append(bidi)
+
+
+def bidi_arg_sets():
+    from dsl_compiler.src.layout.connection_planner import ConnectionPlanner
+    from dsl_compiler.src.layout.wire_router import CircuitEdge
+    ents = ("A", "B", "C")
+    universe = [(s, t) for s in ents + (None,) for t in ents]
+    out = []
+    for k in range(0, 4):
+        for combo in itertools.combinations(universe, k):
+            edges = [CircuitEdge(logical_signal_id="s", resolved_signal_name="s", source_entity_id=s, sink_entity_id=t) for (s, t) in combo]
+            out.append({"self": object.__new__(ConnectionPlanner), "edges": edges})
+    return out
